@@ -11,6 +11,16 @@ TRANSPARENT = {"Uint128", "Uint64", "Uint256", "Uint512", "Decimal", "Decimal256
                "CanonicalAddr"}
 
 
+def _balanced_parens(t):
+    d = 0
+    for c in t:
+        if c == "(": d += 1
+        elif c == ")":
+            d -= 1
+            if d < 0: return False
+    return d == 0
+
+
 class Frame:
     __slots__ = ("fn", "cells")
 
@@ -164,6 +174,9 @@ class Interp:
     def write_place(self, ctx, fr, place, v):
         l, path = place
         c = fr.cell(l)
+        if path and path[0][0] == "*" and not isinstance(c.v, Ref):
+            t = (fr.fn.locals.get(l) or "").strip()
+            if re.match(r"^(std::boxed::|alloc::boxed::)?Box<", t): path = path[1:]      # a Box is held by value: `*b = x` writes the local
         if not path: c.v = v
         else: c.v = self.set_path(ctx, c.v, self._conc_path(ctx, fr, path), v)
 
@@ -181,6 +194,10 @@ class Interp:
         if s == "true": return True
         if s == "false": return False
         if s == "()": return ()
+        if s.startswith("(") and s.endswith(")") and _balanced_parens(s[1:-1]) and "," in s:
+            return tuple(self.const(ctx, fr, a.strip()) for a in split_top(s[1:-1]) if a.strip())      # tuple constant
+        if s.startswith("[") and s.endswith("]") and ";" not in s:
+            return VecV([self.const(ctx, fr, a.strip()) for a in split_top(s[1:-1]) if a.strip()])      # array constant
         if s.startswith('"'):
             try: return eval(s)
             except Exception: return s[1:-1]
@@ -195,6 +212,17 @@ class Interp:
         if s.startswith("{") or s.startswith("<ZST>") or s.startswith("ZeroSized"):
             return Opaque("zst", s)
         m = re.match(r"^(.*?) as .*$", s)
+        # constant aggregate printed as an expression: `Result::<A, B>::Err(DivideByZeroError)`
+        if s.endswith(")") and "(" in s and not s.startswith("("):
+            head = strip_generics(s[:s.index("(")])
+            k0 = s.index("(")
+            inner = s[k0 + 1:-1]
+            if re.match(r"^[\w:]+$", head) and _balanced_parens(inner):
+                cur0 = fr.fn.crate if fr is not None else self.prog.crate
+                vals = [self.const(ctx, fr, a.strip()) for a in split_top(inner)] if inner.strip() else []
+                vals = [self._unit_const(v, cur0) for v in vals]
+                r = self.try_ctor(head, vals, cur0)
+                if r is not None: return r
         # named const / static / promoted / fn item
         name = strip_generics(s)
         cur = fr.fn.crate if fr is not None else self.prog.crate
@@ -294,6 +322,9 @@ class Interp:
                     if src in INTMAX and INTMAX[src] <= 2 ** (b - 1): return v            # unsigned into a wider signed type
                     if src in SINT and SINT[src] <= b: return v                         # signed widening
                     return (v + 2 ** (b - 1)) % (2 ** b) - 2 ** (b - 1)                 # two's-complement reinterpretation / truncation
+                if ty == "char" and src == "u8":
+                    if isinstance(v, int): return Opaque("char", chr(v))
+                    raise Unsupported("symbolic u8 -> char")
                 raise Unsupported(f"IntToInt to {ty}")
             return v
         if k == "tuple": return tuple(self.operand(ctx, fr, o) for o in rv[1])
@@ -537,6 +568,17 @@ class Interp:
         # enum variant / tuple struct constructor used as a function
         r = self.try_ctor(callee, args, cur_crate)
         if r is not None: return r
+        # trait method on a type parameter / trait object: dispatch on the run-time type of the receiver
+        m = re.match(r"^<(dyn [\w:]+|[A-Z]\w*|impl [\w:<>]+) as ([\w:<>, ]+)>::(\w+)$", strip_generics(callee).strip())
+        if m and args and (m.group(1).startswith(("dyn ", "impl ")) or self.prog.types.lookup(m.group(1), cur_crate) is None):
+            recv = self.force(ctx, self.deref(ctx, args[0])) if isinstance(args[0], (Ref, SymEnum)) else args[0]
+            if isinstance(recv, (Struct, EnumV)):
+                concrete = f"<{recv.ty} as {m.group(2)}>::{m.group(3)}"
+                f = self.prog.resolve(concrete, cur_crate)
+                if f is None or not f.blocks:
+                    # default method of the trait: its body is printed under the trait's own path
+                    f = self.prog.resolve(f"{simple_name(m.group(2))}::{m.group(3)}", cur_crate)
+                if f is not None and f.blocks: return self.call_mir(ctx, f, args)
         raise Unsupported(f"no MIR and no model for callee `{callee}` (crate {cur_crate})")
 
     _SHADOW_CACHE = {}
@@ -560,6 +602,13 @@ class Interp:
                 r = self.models.lookup(neutral)
         self._SHADOW_CACHE[key] = r
         return r
+
+    def _unit_const(self, v, cur_crate):
+        """a unit struct used as a constant is printed as its bare path"""
+        if isinstance(v, FnItem):
+            td = self.prog.types.lookup(strip_generics(v.path[0]), cur_crate)
+            if td is not None and td.kind == "struct" and not td.fields: return Struct(td.name, [], [])
+        return v
 
     def try_ctor(self, callee, args, cur_crate):
         name = strip_generics(callee)
